@@ -140,6 +140,12 @@ def decodeScalarUnionWith (dec : Ty → Json → DRes GoVal) (j : Json) :
 def fieldByRefName (fields : List Field) (refName : String) : Option Field :=
   fields.find? fun f => match f.ty with | .ref _ n _ => n == refName | _ => false
 
+/-- `[]uint8` is `[]byte`: encoding/json marshals it as a base64 string (outside the model; a
+    recorded finding for CUE `[...uint8]`) -/
+def isByteElem : Ty → Bool
+  | .scalar "uint8" _ _ m => !m.nullable
+  | _ => false
+
 def goDecode : Nat → Schemas → Ty → Json → DRes GoVal
   | 0, _, _, _ => .fuel
   | fuel + 1, ss, t, j =>
@@ -149,6 +155,7 @@ def goDecode : Nat → Schemas → Ty → Json → DRes GoVal
       else if kind = "any" then decodeScalar kind false j
       else wrapPtr m.nullable j (decodeScalar kind (hasHint m "string_format_datetime") j)
     | .array e _ =>
+      if isByteElem e then .unsup "[]uint8 is []byte (base64)" else
       match j with
       | .null => .ok .nil
       | .arr xs => (mapRes (goDecode fuel ss e) xs).map .slice
@@ -178,9 +185,11 @@ def goDecode : Nat → Schemas → Ty → Json → DRes GoVal
             if hint = "disjunction_of_scalars" then
               (decodeScalarUnionWith (goDecode fuel ss) j fields []).map .union
             else
+              let none_ : List (String × GoVal) := fields.map fun f => (f.name, .nil)
               match j with
+              -- `json.Unmarshal("null", &parsedAsMap)` succeeds, no discriminator: empty union
+              | .null => .ok (.union none_)
               | .obj members =>
-                let none_ : List (String × GoVal) := fields.map fun f => (f.name, .nil)
                 match Json.lookup info.discriminator members with
                 | none => .ok (.union none_)
                 | some d =>
